@@ -49,4 +49,16 @@ CHECKS = {
         "note": "Trusted: LAPACK; residual tolerance 200 eps n_max^2 ||f||. Large shapes (> 160 cells) use a strided subset of impulses (reported in the evidence).",
         "technique": "basis enumeration of the full solution operator vs dense reference matrix + explicit-state BFS over solver histories",
     },
+    "C16": {
+        "text": "Exhaustive within bounds: the full product of simulator class x grid (incl. 256^2 and 96^3) x precision x viscosity x CFL x prefactor x velocity pattern (zero, uniform, spike, alternating, single component) is pushed through the public compute_stable_timestep and checked against both limits; the diffusion time-step kernels are collected as exact matrices (unit impulses, Fraction arithmetic) at the stated limit beta = 0.9/(2d) and at a beta derived from a returned dt: all entries non-negative, rows sum to one, ring rows identity - which is the maximum principle for every field.",
+        "design_ref": "DESIGN.md section 5 C16, sections 4.1 and 4.2",
+        "note": "Trusted: interpreter exact mode for the diffusion kernels. Velocity fields are drawn from a five-member alphabet; the formula depends on the field only through max sum |u|.",
+        "technique": "full product lattice over configurations on the real simulators + exact basis enumeration of the diffusion step matrix",
+    },
+    "C17": {
+        "text": "Exhaustive within bounds: a deviation-bounded lattice over registry configurations (dimension, precision, Eulerian field sets, 0-2 Lagrangian grids with 0-2 scalar and vector fields each, marker counts incl. N == dim, content alphabet with NaN payloads / infinities / denormals / signed zero / max, naming alphabet, time stamps, IO classes) is saved through the real IO objects, the HDF5 layout is inspected with h5py directly, the file is loaded into freshly allocated arrays and compared byte for byte; a mismatch lattice (one deviation of the loading registry at a time) requires load() to raise.",
+        "design_ref": "DESIGN.md section 5 C17, section 4.1",
+        "note": "Trusted: h5py/HDF5. Field contents come from a six-member alphabet placed at the first/last element; IO is a byte copy, so content position is not explored further.",
+        "technique": "deviation-bounded product lattice of registry configurations driven through the real save/load path with a byte-equality oracle",
+    },
 }
